@@ -399,6 +399,18 @@ def localise(A, dialect, kind, detail):
     sig = {'kind': kind, 'node': stmt, 'feat': 'statement-level', 'dialect_class': dclass(dialect)}
     if stmt == 'Show' and getattr(A, 'name', None) is not None:
         sig['feat'] = 'statement-level show-with-name'
+    if stmt == 'Insert' and getattr(A, 'columns', None):
+        # executable model of C01-F21 / F22: a column of the list is stored as a plain word that the dialect's lexer reads as a keyword
+        # (the mysql / sqlite grammars store a quoted name without its quotes; the printer re-quotes only what is not a plain word)
+        try:
+            for col in A.columns:
+                nm = str(col.name)
+                toks = monitors.lex_all(nm, dialect) if nm and '`' not in nm else []
+                if toks and (len(toks) > 1 or toks[0][0] != 'ID'):
+                    sig['feat'] = 'statement-level insert-column-stored-bare-reads-as-keyword'
+                    break
+        except Exception:
+            pass
     if kind == 'tree-differs':
         sig['diff'] = detail.get('diff', '')[:120]
     if kind == 'reparse-rejected':
